@@ -188,7 +188,7 @@ def main(argv=None):
     os.makedirs(os.path.join(OUT, "replay"), exist_ok=True)
     specs = load_specs()
     contracts = [c for c in specs.contracts.values() if prop in c.properties]
-    timeout_ms = 10000 if tier == "quick" else 40000
+    timeout_ms = 20000 if tier == "quick" else 60000  # nominal seconds per split part (an rlimit, see solve.py)
     n_native = 300 if tier == "quick" else 4000
     known = [k for k in load_known() if k.get("kind") == "finding" and k.get("property") == prop]
     results, natives = {}, {}
